@@ -26,6 +26,7 @@ def title(d):
     return t.replace("|", "/")[:110]
 
 
+first = json.load(open(os.path.join(sd, "FIRST_RUN.json")))["first_run"] if os.path.exists(os.path.join(sd, "FIRST_RUN.json")) else {}
 rows = []
 names = sorted(d for d in os.listdir(sd) if os.path.isdir(os.path.join(sd, d)))
 n_own = n_any = 0
@@ -34,7 +35,7 @@ for d in names:
     meta = json.load(open(os.path.join(sd, d, "meta.json")))
     files = ", ".join(os.path.basename(f) for f in meta.get("files", []))
     if r is None:
-        rows.append("| %s | %s | %s | (not run) | |" % (d, title(d), files))
+        rows.append("| %s | %s | %s | (not run) | | %s |" % (d, title(d), files, first.get(d, "–")))
         continue
     cb = r["caught_by"]
     own = d.split("-")[0]
@@ -44,7 +45,7 @@ for d in names:
         rules.append("%s: %s" % (p, ", ".join(rs)))
     n_any += bool(cb)
     n_own += own in cb
-    rows.append("| %s | %s | %s | %s | %s |" % (d, title(d), files, "; ".join(rules) if rules else "**missed**", "yes" if own in cb else ("other" if cb else "no")))
+    rows.append("| %s | %s | %s | %s | %s | %s |" % (d, title(d), files, "; ".join(rules) if rules else "**missed**", "yes" if own in cb else ("other" if cb else "no"), first.get(d, "–")))
 out = ["# Seeded changes × checks", "",
        "Every row is a source change produced by an independent sub-agent that was given only the text of one property",
        "(directory `seeded/<name>/`: `patch.diff`, `demo/`, `meta.json`).  Each was confirmed in a scratch worktree to compile,",
@@ -52,6 +53,7 @@ out = ["# Seeded changes × checks", "",
        "that report a violation when the patch is applied to a scratch copy of the tree (`tools/seedtest.py`), grouped by check;",
        "`own` says whether the check of the property the change was written against fires.", "",
        "%d changes; %d caught by at least one check; %d caught by the check of their own property." % (len(names), n_any, n_own), "",
-       "| change | what it does | file(s) | rules that fire | own |", "|---|---|---|---|---|"] + rows
+       "First run (rounds 2+): %d caught, %d missed by the rules as they stood when the change arrived." % (sum(1 for v in first.values() if v == "caught"), sum(1 for v in first.values() if v == "missed")), "",
+       "| change | what it does | file(s) | rules that fire now | own | first run |", "|---|---|---|---|---|---|"] + rows
 open(os.path.join(sd, "MATRIX.md"), "w").write("\n".join(out) + "\n")
 print("%d changes, %d caught, %d by own check" % (len(names), n_any, n_own))
